@@ -1,5 +1,5 @@
 import sys
-sys.path.insert(0,'/verif/lib')
+import os; sys.path.insert(0, os.path.join(os.path.dirname(os.path.dirname(os.path.abspath(__file__))), 'lib'))
 import vxdriver as v
 unit = sys.argv[1]
 try:
